@@ -324,6 +324,7 @@ Proof.
                   (fuel_for (regions_of s (use_rs s)) region_limit0) (regions_of s (use_rs s)) 0 region_limit0 O cached [] Hs ltac:(lia)) as P.
     destruct (page_loop _ _ _ _ _ _ _ _ _ _ _) as [[[st acc] m'] c']. cbn [fst snd] in *.
     apply inv_set_regions; assumption.
+  - exact I.
   - destruct (lookup (regions_of s (use_rs s)) bad); [|apply inv_load_once; exact I].
     destruct (use_rs s && loaded_once s); exact I.
 Qed.
@@ -671,6 +672,8 @@ Proof.
   - split; [first [exact Hrs|reflexivity]|exact Hf].
   - (* the timed background flush *)
     split; [first [exact Hrs|reflexivity]|]. intros j. rewrite overlay_flush by exact I. apply Hf.
+  - (* a flush whose leveldb write fails: nothing changes, the batch is kept *)
+    split; [first [exact Hrs|reflexivity]|exact Hf].
 Qed.
 
 Lemma rs_follow ops : forall s f, SInv s -> ops_ok ops -> plain_ops ops = true -> use_rs s = true ->
